@@ -1123,14 +1123,67 @@ fn overlong_skip_sweep(rep: &Report) {
     rep.extra("overlong_request_cases", json!(n));
 }
 
+const FAULT_PRIMS: [Prim; 12] = [Prim::Read32(1), Prim::Read32(9), Prim::Read32(17), Prim::Read32(32), Prim::Peek32(25), Prim::Skip(13), Prim::Signed16(11), Prim::ReadU8, Prim::Sc(false), Prim::Sc(true), Prim::Vlc(0), Prim::Umv];
+const FAULT_KINDS: [std::io::ErrorKind; 3] = [std::io::ErrorKind::Interrupted, std::io::ErrorKind::WouldBlock, std::io::ErrorKind::Other];
+
+/// One case of the source-answer sweep: two primitives on a source whose `fault.0`-th `read` call
+/// answers with an error of kind `fault.1` and which hands over at most `chunk` bytes per call.
+fn fault_case(data: &[u8], a: Prim, b: Prim, fault: Option<(usize, std::io::ErrorKind)>, chunk: usize, tabs: &[Vec<Entry<u8>>; 3]) -> Result<(), String> {
+    let bits = bits_of(data);
+    let mut rd = H263Reader::from_source(FaultSrc { data, pos: 0, calls: 0, fail_at: fault, chunk });
+    let mut m = Model { bits: &bits, avail: bits.len(), pos: 0 };
+    catch(|| -> Result<(), String> {
+        for (step, p) in [a, b].into_iter().enumerate() {
+            let before = m.pos;
+            let acc = m.prim(p);
+            let mut got = do_prim(&mut rd, p, tabs);
+            if matches!(&got, Out::Other(_)) && fault.map(|f| f.1 != std::io::ErrorKind::Interrupted).unwrap_or(false) {
+                // the injected error surfaced: nothing may have been consumed, and the
+                // repeated operation must now give the model's answer (VLC / UMV reads leave
+                // the position undefined after an error, so they are re-run from a fresh reader)
+                if matches!(p, Prim::Vlc(_) | Prim::Umv) {
+                    return Ok(());
+                }
+                got = do_prim(&mut rd, p, tabs);
+            }
+            if !acc.contains(&got) {
+                return Err(format!("step {step} {p:?} at model position {before}: reader returned {got:?}, model allows {acc:?}"));
+            }
+            if got.failed() {
+                m.pos = before;
+                if matches!(p, Prim::Vlc(_) | Prim::Umv) {
+                    return Ok(());
+                }
+            }
+        }
+        let mut gotbits = vec![];
+        loop {
+            match rd.read_bits::<u8>(1) {
+                Ok(v) => gotbits.push(v == 1),
+                Err(e) if e.is_eof_error() => break,
+                Err(_) => continue, // the injected fault, if it had not fired yet
+            }
+            if gotbits.len() > bits.len() + 8 {
+                return Err("drain delivers more bits than the source holds".into());
+            }
+        }
+        if gotbits != bits[m.pos..] {
+            let first = gotbits.iter().zip(&bits[m.pos..]).position(|(x, y)| x != y);
+            return Err(format!("drain delivers {} bits, the source has {} left from position {} (first differing bit: {first:?})", gotbits.len(), bits.len() - m.pos, m.pos));
+        }
+        Ok(())
+    })
+    .unwrap_or_else(|pm| Err(format!("panic {pm}")))
+}
+
 fn source_fault_sweep(rep: &Report, tier: Tier) {
-    let prims = [Prim::Read32(1), Prim::Read32(9), Prim::Read32(17), Prim::Read32(32), Prim::Peek32(25), Prim::Skip(13), Prim::Signed16(11), Prim::ReadU8, Prim::Sc(false), Prim::Sc(true), Prim::Vlc(0), Prim::Umv];
+    let prims = FAULT_PRIMS;
     let srcs: Vec<Vec<u8>> = vec![
         vec![0xA5, 0x3C, 0x96, 0x0F, 0xF0, 0x69, 0xC3, 0x5A, 0x81, 0x7E],
         vec![0xFF, 0x00, 0x00, 0x80, 0x12, 0x00, 0x00, 0x80, 0x01, 0x55],
         vec![0x00, 0x00, 0x40, 0x00, 0x00, 0x2A, 0xAA, 0xA0],
     ];
-    let kinds = [std::io::ErrorKind::Interrupted, std::io::ErrorKind::WouldBlock, std::io::ErrorKind::Other];
+    let kinds = FAULT_KINDS;
     let tabs = tables();
     let mut work = vec![];
     for (si, _) in srcs.iter().enumerate() {
@@ -1144,61 +1197,20 @@ fn source_fault_sweep(rep: &Report, tier: Tier) {
         .par_iter()
         .map(|&(si, a, b)| {
             let data = &srcs[si];
-            let bits = bits_of(data);
             let mut count = 0u64;
             let faults: Vec<Option<(usize, std::io::ErrorKind)>> = std::iter::once(None).chain((0..=data.len() + 1).flat_map(|k| kinds.iter().map(move |kd| Some((k, *kd))))).collect();
             for fault in &faults {
-                for chunk in [usize::MAX, 1] {
-                    if chunk == 1 && fault.is_some() && !tier.thorough() {
+                // short reads are legal answers too, and an error may follow a short read inside one
+                // top-up of the buffer: every fault position is tried under every delivery size
+                for chunk in [usize::MAX, 1, 2, 3] {
+                    if chunk == 3 && !tier.thorough() {
                         continue;
                     }
                     count += 1;
-                    let mut rd = H263Reader::from_source(FaultSrc { data, pos: 0, calls: 0, fail_at: *fault, chunk });
-                    let mut m = Model { bits: &bits, avail: bits.len(), pos: 0 };
-                    let r = catch(|| -> Result<(), String> {
-                        for (step, p) in [prims[a], prims[b]].into_iter().enumerate() {
-                            let before = m.pos;
-                            let acc = m.prim(p);
-                            let mut got = do_prim(&mut rd, p, &tabs);
-                            if matches!(&got, Out::Other(_)) && fault.map(|f| f.1 != std::io::ErrorKind::Interrupted).unwrap_or(false) {
-                                // the injected error surfaced: nothing may have been consumed, and the
-                                // repeated operation must now give the model's answer (VLC / UMV reads leave
-                                // the position undefined after an error, so they are re-run from a fresh reader)
-                                if matches!(p, Prim::Vlc(_) | Prim::Umv) {
-                                    return Ok(());
-                                }
-                                got = do_prim(&mut rd, p, &tabs);
-                            }
-                            if !acc.contains(&got) {
-                                return Err(format!("step {step} {p:?} at model position {before}: reader returned {got:?}, model allows {acc:?}"));
-                            }
-                            if got.failed() {
-                                m.pos = before;
-                                if matches!(p, Prim::Vlc(_) | Prim::Umv) {
-                                    return Ok(());
-                                }
-                            }
-                        }
-                        let mut gotbits = vec![];
-                        loop {
-                            match rd.read_bits::<u8>(1) {
-                                Ok(v) => gotbits.push(v == 1),
-                                Err(e) if e.is_eof_error() => break,
-                                Err(_) => continue, // the injected fault, if it had not fired yet
-                            }
-                            if gotbits.len() > bits.len() + 8 {
-                                return Err("drain delivers more bits than the source holds".into());
-                            }
-                        }
-                        if gotbits != bits[m.pos..] {
-                            return Err(format!("drain delivers {} bits, the source has {} left from position {}", gotbits.len(), bits.len() - m.pos, m.pos));
-                        }
-                        Ok(())
-                    })
-                    .unwrap_or_else(|pm| Err(format!("panic {pm}")));
-                    if let Err(e) = r {
+                    if let Err(e) = fault_case(data, prims[a], prims[b], *fault, chunk, &tabs) {
                         let class = if e.contains("panic") { panic_sig(e.split("panic ").nth(1).unwrap_or(&e)) } else { format!("C14/source-answer-{}", match fault { None => "chunked".to_string(), Some((_, k)) => format!("{k:?}") }) };
-                        rep.violation(&class, format!("source {} delivering {} per read, fault {:?}: [{:?}, {:?}]: {e}", hex(data), if chunk == 1 { "one byte" } else { "everything asked for" }, fault, prims[a], prims[b]), json!({"kind": "reader-fault", "source": hex(data), "chunk": if chunk == 1 { 1 } else { 0 }, "fault": format!("{fault:?}"), "ops": [format!("{:?}", prims[a]), format!("{:?}", prims[b])], "error": e}));
+                        let kind_ix = fault.map(|f| kinds.iter().position(|k| *k == f.1).unwrap_or(0));
+                        rep.violation(&class, format!("source {} delivering {} per read, fault {:?}: [{:?}, {:?}]: {e}", hex(data), if chunk == usize::MAX { "everything asked for".to_string() } else { format!("at most {chunk} byte(s)") }, fault, prims[a], prims[b]), json!({"kind": "reader-fault", "source": hex(data), "chunk": if chunk == usize::MAX { 0 } else { chunk }, "fault": format!("{fault:?}"), "fault_call": fault.map(|f| f.0), "fault_kind_index": kind_ix, "op_indices": [a, b], "ops": [format!("{:?}", prims[a]), format!("{:?}", prims[b])], "error": e}));
                     }
                 }
             }
@@ -1379,6 +1391,15 @@ pub fn replay(case: &serde_json::Value) {
             "isize" => show!(isize, usize),
             _ => show!(u32, u32),
         }
+        return;
+    }
+    if case["kind"] == "reader-fault" {
+        let data = crate::bits::unhex(case["source"].as_str().unwrap_or(""));
+        let ix: Vec<usize> = case["op_indices"].as_array().map(|a| a.iter().map(|v| v.as_u64().unwrap_or(0) as usize % FAULT_PRIMS.len()).collect()).unwrap_or_default();
+        let (a, b) = (FAULT_PRIMS[*ix.first().unwrap_or(&0)], FAULT_PRIMS[*ix.get(1).unwrap_or(&0)]);
+        let fault = case["fault_call"].as_u64().map(|k| (k as usize, FAULT_KINDS[case["fault_kind_index"].as_u64().unwrap_or(1) as usize % 3]));
+        let chunk = match case["chunk"].as_u64().unwrap_or(0) { 0 => usize::MAX, c => c as usize };
+        println!("source {} handing over at most {chunk} byte(s) per call, call {fault:?} answers with an error: [{a:?}, {b:?}] then drain -> {:?}", hex(&data), fault_case(&data, a, b, fault, chunk, &tables()));
         return;
     }
     if case["kind"] == "reader-overlong" {
